@@ -1,0 +1,153 @@
+//! Verification hook (feature `verif-hooks`): run many CLI invocations in one
+//! process, because process creation is the scarce resource in the checker's
+//! sandbox. Each job goes through the same `Cli::try_parse_from` → `run_*`
+//! path that `main` uses; only the process boundary is removed.
+//!
+//! Usage: `succinctly __verif-batch <jobs-file> <results-file>`
+//! Job line:    `<argv joined by 0x1f, hex>\t<stdin, hex>`
+//! Result line: `<exit code | P (panic)>\t<stdout, hex>\t<stderr, hex>`
+//! A line `#<n>` is written (and flushed) to `<results-file>.cur` before job n
+//! starts, so a driver can tell which job killed the process.
+#![allow(unsafe_code)]
+use clap::Parser;
+use std::io::{Read, Seek, SeekFrom, Write};
+use std::os::fd::AsRawFd;
+
+extern "C" {
+    fn dup(fd: i32) -> i32;
+    fn dup2(a: i32, b: i32) -> i32;
+    fn close(fd: i32) -> i32;
+}
+
+fn unhex(s: &str) -> Vec<u8> {
+    (0..s.len() / 2)
+        .map(|i| u8::from_str_radix(&s[2 * i..2 * i + 2], 16).unwrap())
+        .collect()
+}
+
+fn hex(b: &[u8]) -> String {
+    const D: &[u8; 16] = b"0123456789abcdef";
+    let mut s = String::with_capacity(b.len() * 2);
+    for x in b {
+        s.push(D[(x >> 4) as usize] as char);
+        s.push(D[(x & 15) as usize] as char);
+    }
+    s
+}
+
+fn scratch(tag: &str) -> std::fs::File {
+    let dir = std::env::var_os("VERIF_BATCH_TMP")
+        .map(std::path::PathBuf::from)
+        .unwrap_or_else(std::env::temp_dir);
+    let p = dir.join(format!("svb-{}-{}", std::process::id(), tag));
+    let f = std::fs::OpenOptions::new()
+        .read(true)
+        .write(true)
+        .create(true)
+        .truncate(true)
+        .open(&p)
+        .unwrap();
+    let _ = std::fs::remove_file(&p);
+    f
+}
+
+fn rewind(f: &mut std::fs::File) {
+    f.set_len(0).unwrap();
+    f.seek(SeekFrom::Start(0)).unwrap();
+}
+
+fn slurp(f: &mut std::fs::File) -> Vec<u8> {
+    let mut v = Vec::new();
+    f.seek(SeekFrom::Start(0)).unwrap();
+    f.read_to_end(&mut v).unwrap();
+    v
+}
+
+pub fn run() -> i32 {
+    let a: Vec<String> = std::env::args().collect();
+    let jobs = std::fs::read_to_string(&a[2]).unwrap();
+    let mut res = std::io::BufWriter::new(std::fs::File::create(&a[3]).unwrap());
+    let mut cur = std::fs::File::create(format!("{}.cur", &a[3])).unwrap();
+    std::panic::set_hook(Box::new(|_| {}));
+    let (mut fin, mut fout, mut ferr) = (scratch("in"), scratch("out"), scratch("err"));
+    // SAFETY: plain libc fd duplication; the saved fds are restored after each job.
+    let (s0, s1, s2) = unsafe { (dup(0), dup(1), dup(2)) };
+    for (n, line) in jobs.lines().enumerate() {
+        let _ = cur.seek(SeekFrom::Start(0));
+        let _ = writeln!(cur, "#{n}          ");
+        let _ = res.flush();
+        let mut it = line.split('\t');
+        let argv_b = unhex(it.next().unwrap());
+        let argv: Vec<String> = String::from_utf8(argv_b)
+            .unwrap()
+            .split('\x1f')
+            .map(str::to_string)
+            .collect();
+        let input = unhex(it.next().unwrap_or(""));
+        rewind(&mut fin);
+        fin.write_all(&input).unwrap();
+        fin.seek(SeekFrom::Start(0)).unwrap();
+        rewind(&mut fout);
+        rewind(&mut ferr);
+        // SAFETY: see above.
+        unsafe {
+            dup2(fin.as_raw_fd(), 0);
+            dup2(fout.as_raw_fd(), 1);
+            dup2(ferr.as_raw_fd(), 2);
+        }
+        let r = std::panic::catch_unwind(|| -> i32 {
+            let full: Vec<String> = std::iter::once("succinctly".to_string())
+                .chain(argv.iter().cloned())
+                .collect();
+            match crate::Cli::try_parse_from(full) {
+                Err(e) => {
+                    let _ = e.print();
+                    if e.use_stderr() {
+                        2
+                    } else {
+                        0
+                    }
+                }
+                Ok(cli) => {
+                    let r = match cli.command {
+                        crate::Command::Jq(args) => crate::jq_runner::run_jq(args),
+                        crate::Command::Yq(args) => crate::yq_runner::run_yq(args),
+                        crate::Command::JqLocate(args) => crate::jq_locate::run_jq_locate(args),
+                        crate::Command::YqLocate(args) => crate::yq_locate::run_yq_locate(args),
+                        _ => Ok(99),
+                    };
+                    match r {
+                        Ok(c) => c,
+                        Err(e) => {
+                            eprintln!("Error: {e:?}");
+                            1
+                        }
+                    }
+                }
+            }
+        });
+        let _ = std::io::stdout().flush();
+        let _ = std::io::stderr().flush();
+        // SAFETY: see above.
+        unsafe {
+            dup2(s0, 0);
+            dup2(s1, 1);
+            dup2(s2, 2);
+        }
+        let o = slurp(&mut fout);
+        let e = slurp(&mut ferr);
+        let code = match r {
+            Ok(c) => c.to_string(),
+            Err(_) => "P".to_string(),
+        };
+        writeln!(res, "{code}\t{}\t{}", hex(&o), hex(&e)).unwrap();
+    }
+    let _ = res.flush();
+    // SAFETY: closing the fds duplicated above.
+    unsafe {
+        close(s0);
+        close(s1);
+        close(s2);
+    }
+    0
+}
